@@ -329,6 +329,7 @@ def validate_one(trace_path, workdir, module="TraceCore", timeout=1200):
             continue
         kind = m.group(1)
         if kind == "VIOL":
+            payload["props"] = sorted({q for pp in payload.get("props", []) for q in pp.split(",")})
             res["viol"].append(payload)
         elif kind == "DRIFT":
             res["drift"].append(payload)
